@@ -44,6 +44,8 @@ def shards(tier, seed):
     for w in ((6, 10, 16) if tier == "quick" else (6, 7, 10, 13, 16, 20, 30)):
         out.append(dict(name="long/w%d" % w, w=w, long=True, weight=4 ** min(w, 7)))
     out.append(dict(name="fimo_history", fimo_history=True, w=0, weight=800))
+    out.append(dict(name="fimo_lookup/many_motifs", fimo_lookup="many", w=0, numba_threads=4, weight=2500))
+    out.append(dict(name="fimo_lookup/planted", fimo_lookup="planted", w=0, numba_threads=4, weight=1500))
     return out
 
 
@@ -113,6 +115,16 @@ def run_shard(sh, tier, seed):
         from mc.props import c12
         c12.run_history(rec, tier, seed)
         return rec.result()
+    if sh.get("fimo_lookup"):
+        # the association score -> table entry as fimo() performs it: up to 300 motifs in one call (every hit must be looked up in its own
+        # motif's table), and consensus instances whose real-valued score lies several bins above the highest attainable discretised
+        # score (exact p-value 0)
+        from mc.props import c12
+        if sh["fimo_lookup"] == "many":
+            c12.run_many_motifs(rec, tier, seed)
+        else:
+            c12.run_planted(rec, dict(L=300), tier, seed)
+        return rec.result()
     w = sh["w"]
     if sh.get("long"):
         pats = [[(i * (k + 2) + k) % 7 for i in range(w)] for k in range(4)] + [[1] * w, [0] * w, [4] * (w - 1) + [1]]
@@ -144,6 +156,14 @@ def replay(v):
         c12.run_history(rec, "quick", 0)
         hit = [x for x in rec.violations if x["sig"] == v["sig"]]
         return (not hit), "replayed the fimo call history: %d violations with signature %s" % (len(hit), v["sig"])
+    if "many motifs" in c.get("input", "") or "planted" in c.get("input", ""):
+        from mc.props import c12
+        if "many motifs" in c["input"]:
+            c12.run_many_motifs(rec, "quick", c.get("seed", 0))
+        else:
+            c12.run_planted(rec, dict(L=c["L"]), "quick", c.get("seed", 0))
+        hit = [x for x in rec.violations if x["sig"] == v["sig"]]
+        return (not hit), "replayed the fimo() lookups: %d violations with signature %s" % (len(hit), v["sig"])
     check_table(rec, dict(c), build_pwm(c["cols"], c.get("rotated", True)), c["bin_size"], c["eps"], brute=len(c["cols"]) <= 7)
     return (not rec.violations), "_pwm_to_mapping(PWM from palette columns %s, bin_size=%s, eps=%s): %s" % (
         c["cols"], c["bin_size"], c["eps"], rec.violations[:1] or "table equals the exact tail distribution")
